@@ -644,8 +644,9 @@ fn check_c17(seed: u64, tier: Tier, replay: Option<String>) -> i32 {
     let mut rng = Rng::new(mix(seed, 0x1717));
     let cases: Vec<c17::LoadCase> = if quick {
         // always: fault-free, poison prover files, everything for the two cheap loaders, and for every
-        // (loader, file) the three faults a single-site slip is most likely to let through: one byte
-        // over the cap, the same file canonical for ANOTHER shape, a flip in the middle of the file
+        // (loader, file) the faults a single-site slip is most likely to let through: one byte over
+        // the cap, the same file canonical for ANOTHER shape, a flip in the middle and at the end of the
+        // file, the canonical bytes followed by a few more
         all.into_iter()
             .filter(|c| {
                 c.faults.is_empty()
@@ -655,6 +656,7 @@ fn check_c17(seed: u64, tier: Tier, replay: Option<String>) -> i32 {
                     || matches!(&c.faults[0], c17::SFault::Oversize { bytes, .. } if *bytes == c17::AGG_CAP + 1 || *bytes == c17::VERIFIER_CAP + 1)
                     || matches!(&c.faults[0], c17::SFault::Lost { file, .. } if file != "config.json" && !file.starts_with("dummy_"))
                     || matches!(&c.faults[0], c17::SFault::BitFlip { offset, .. } if *offset > 4)
+                    || matches!(&c.faults[0], c17::SFault::Extend { n: 8, .. })
                     || rng.chance(1, 8)
             })
             .collect()
